@@ -139,7 +139,7 @@ def work_sets(p):
     w = world("quick")
     acc = lattice.Acc()
     n = len(w.pts)
-    pl = w.planner
+    pl = w.fresh_planner()
     sub = list(range(0, len(w.boxes), max(1, len(w.boxes) // 24)))[:24]
     segs = p["segs"]
     for si in segs[p["lo"]:p["hi"]]:
@@ -147,7 +147,10 @@ def work_sets(p):
         closed, _ = segbox_int_vec(w.pts[ia], w.pts[ib], w.LO, w.HI)
         for x in sub:
             for y in sub:
-                pl.obstructions = [w.obst[x], w.obst[y]]
+                # registered through the public call, in this order (a planner may keep its boxes ordered or indexed)
+                pl.obstructions = []
+                pl.addObstruction(list(w.boxes[x][0]), list(w.boxes[x][1]))
+                pl.addObstruction(list(w.boxes[y][0]), list(w.boxes[y][1]))
                 try:
                     g = pl.obstruction(w.nodes[ia], w.nodes[ib])
                 except Exception as e:
